@@ -354,8 +354,31 @@ func (fr *Frame) ghostStmts(key string, ordinal int, when string, st *State, rea
 		if !(gs.Callee == shortFn(short) || gs.Callee == short) {
 			continue
 		}
+		if gs.Assert != nil {
+			fr.ghostAssert(gs, st, reach)
+			continue
+		}
 		fr.ghostAssign(gs, st)
 	}
+}
+
+// ghostAssert: an intermediate assertion of the contract, proved where it stands and then assumed.
+func (fr *Frame) ghostAssert(gs *GhostStmt, st *State, reach *Term) {
+	vc := fr.vc
+	sc := fr.baseScope(st)
+	if len(fr.ghostResults) == 1 {
+		sc.vars["result"] = fr.ghostResults[0]
+	}
+	for i, rv := range fr.ghostResults {
+		sc.vars[fmt.Sprintf("result%d", i)] = rv
+	}
+	t, err := sc.compileBool(gs.Expr)
+	if err != nil {
+		vc.Errors = append(vc.Errors, fmt.Sprintf("assert %s: %v", gs.Src, err))
+		return
+	}
+	vc.oblige("assert", clauseLabel(gs.Assert, 0), reach, t, fr.fn.Pos(), gs.Assert.Src, gs.Assert.Props, "")
+	vc.assume(reach, t)
 }
 
 func (fr *Frame) ghostAssign(gs *GhostStmt, st *State) {
